@@ -58,11 +58,20 @@ def op (name : String) (j : Json) : Except String (Option Json) := do
       Py.Vec3.normSq (Py.Vec3.sub (Spec.C13.pos q.2) (m.apply (Spec.C13.pos q.1)))))
     let orthDefect := Spec.rmax [Spec.maxAbsDiff (R.mul R.T) Py.Mat3.one, Spec.maxAbsDiff (R.T.mul R) Py.Mat3.one]
     let detDefect := Spec.rabs (R.det - 1)
+    -- handedness: the signed volume spanned by four atoms of the whole structure (indices chosen by the harness), before and after
+    let idx ← if jHas j "fit_idx" then jIntList j "fit_idx" else pure []
+    let triple (t : List Py.Atom) : Rat :=
+      match idx.map (fun i => (t.getD i.toNat default)) with
+      | [a0, a1, a2, a3] =>
+        let o := Spec.C13.pos a0
+        Py.Vec3.dot (Py.Vec3.sub (Spec.C13.pos a1) o) (Py.Vec3.cross (Py.Vec3.sub (Spec.C13.pos a2) o) (Py.Vec3.sub (Spec.C13.pos a3) o))
+      | _ => 0
     let sh := Spec.C13.shared p mb tb
     let shAfter := Spec.C13.sharedPos p ma ta
     pure (some (Json.mkObj [
       ("count_same", boolJ sameCount), ("attrs_same", boolJ attrsSame), ("target_same", boolJ (decide (ta = tb))),
       ("motion_defect", ratJ motionDefect), ("orth_defect", ratJ orthDefect), ("det_defect", ratJ detDefect),
+      ("triple_before", ratJ (triple mb)), ("triple_after", ratJ (if sameCount then triple ma else 0)),
       ("n_shared", natJ sh.length),
       ("unique_ident", boolJ (decide (Spec.C13.UniqueIdent p mb) && decide (Spec.C13.UniqueIdent p tb))),
       ("shared_before", Json.arr (sh.map (fun q => Json.arr #[vecJ (Spec.C13.pos q.1), vecJ (Spec.C13.pos q.2)])).toArray),
